@@ -34,6 +34,10 @@ RULE = ('history = 3-8 commands drawn from up (html/json/markdown/summary, -q, -
         'rules kind on disk, views?, legacy CSV present?).')
 
 
+AWKWARD_CSV_ROWS = ['"SAY ""HI""",Quoted,Misc,Other', 'NOCAT,No Category,,', 'EMPTYM,,Misc,Other', 'A[b]C,Brackets,Misc,Other',
+                    '"COMMA, INC",Comma,Misc,Other', 'TRAIL\\,Backslash,Misc,Other']
+
+
 def runs(tier):
     return 160 if tier == 'quick' else 12000
 
@@ -52,6 +56,12 @@ def gen_schedule(rng, i, tier):
         files[csvp] = rng.choice(['Pattern,Merchant,Category,Subcategory\n', '# no rules yet\nPattern,Merchant,Category,Subcategory\n'])
     if b['rules_kind'] == 'csv' and rng.random() < 0.15:
         files[base + 'config/merchant_categories.csv.bak'] = 'Pattern,Merchant,Category,Subcategory\nOLDBAK,Old,Misc,Old\n'
+    if b['rules_kind'] == 'csv' and rng.random() < 0.25:
+        # legal CSV rows that convert to something the .rules loader may not accept (quotes in the pattern, empty category,
+        # empty merchant, a bracket that is no modifier, a trailing backslash): the migration then fails half-way or yields
+        # an unloadable file
+        extra = rng.choice(AWKWARD_CSV_ROWS)
+        files[csvp] = files[csvp].rstrip('\n') + '\n' + extra + '\n'
     if rng.random() < 0.15 and base + 'config/views.rules' not in files:
         # a views file that settings does not mention
         files[base + 'config/views.rules'] = '[Everything]\nfilter: total > 0\n'
@@ -340,7 +350,12 @@ def check_step(sched, step, pre, post, r):
         s1 = post.get(cfg + '/settings.yaml')
         if s0 is not None and (s1 is None or not s1.startswith(s0)):
             bad('RO', cfg + '/settings.yaml', 'rewritten (old bytes are not a prefix)')
-        # the original rules are kept as a backup
+        # a requested migration may replace rule files, but never lose what the user had in them: every pre-existing
+        # rules / backup file content must still be the content of some file (the original is "kept as a backup")
+        have = set(c_ for c_ in post.values() if c_ is not None)
+        for p_, c_ in sorted(pre.items()):
+            if c_ and os.path.dirname(p_) == cfg and classify_path(p_) in ('rules', 'csv-rules') and c_ not in have:
+                bad('BAK', p_, 'lost (its content is in no file any more)')
         if csv_pre is not None and post.get(cfg + '/merchant_categories.csv') != csv_pre:
             baks = [c for p, c in post.items() if p.startswith(cfg + '/merchant_categories.csv.bak') and c is not None]
             if csv_pre not in baks:
